@@ -763,7 +763,48 @@ class QGen:
             opts.append((2, "typed-leaf-seq"))
         if self.f.first and not self.safe and fuel > 1 and not self.noflat:
             opts.append((2, "first-of-seqs"))
+        outer_objs = [(n, t.cls) for n, t in scope if isinstance(t, TObj) and not n.startswith("__")
+                      and any(m.kind == "num" and not m.enum and not m.tree_type and not m.member and m.ctype != "bool" for m in self.s.classes[t.cls].methods)]
+        def _flat_sources(o_name, o_cls):
+            evs_ = self.vars_of(scope, lambda t: isinstance(t, TEvt))
+            srcs = [(f"{e_}.{c.accessor}({c.banks[0]!r})", c) for e_, _ in evs_ for c in self.s.colls if not c.singleton and any(m.kind == "vec" for m in self.s.classes[c.element].methods)]
+            srcs_m = [(f"{o_name}.{m.name}()", m.cls) for m in self.s.classes[o_cls].methods if m.kind == "objvec" and any(x.kind == "vec" for x in self.s.classes[m.cls].methods)]
+            return [(t_, c.element, (c.accessor, c.banks[0])) for t_, c in srcs] + [(t_, cls_, None) for t_, cls_ in srcs_m]
+
+        outer_objs = [(n, c_) for n, c_ in outer_objs if _flat_sources(n, c_)]
+        if self.f.seq2d and self.f.closures and outer_objs and not self.noflat:
+            opts.append((7, "shadow-two-out"))
         k = self.weighted(opts)
+        if k == "shadow-two-out":
+            # a 2-D column: inside a loop of its own, a flattening step whose parameter carries the name of an object bound TWO lambdas further out,
+            # followed by a step that means that outer object
+            o_name, o_cls = self.pick(outer_objs)
+            mid = self.objseq(scope, 0)
+            cand = _flat_sources(o_name, o_cls)
+            if mid is not None and cand:
+                src_txt, src_cls, use = self.pick(cand)
+                if use:
+                    self.uses.append(use)
+                vm_ = self.pick([m for m in self.s.classes[src_cls].methods if m.kind == "vec"])
+                nm_ = self.pick([m for m in self.s.classes[o_cls].methods if m.kind == "num" and not m.enum and not m.tree_type and not m.member and m.ctype != "bool"])
+                names = {n for n, _ in scope}
+                mv = "mid"
+                while mv in names:
+                    mv += "d"
+                w = "sw"
+                while w in names or w == mv:
+                    w += "w"
+                shadow = self.chance(3, 4)
+                inner_name = o_name if shadow else "fl"
+                if shadow:
+                    self.labels.add("shadowing")
+                    self.labels.add("shadow-two-lambdas-out-behind-SelectMany")
+                self.labels.update({"column-2D", "SelectMany-inner", "closure"})
+                self.nops += 3
+                kind_ = wider(vm_.ctype, nm_.ctype if nm_.typed else "double")
+                return (f"{mid[0]}.Select(lambda {mv}: {src_txt}.SelectMany(lambda {inner_name}: {inner_name}.{vm_.name}()).Select(lambda {w}: {w} * {o_name}.{nm_.name}()))",
+                        TSeq(TSeq(TNum(kind_))))
+            k = "num"
         if k == "first-of-seqs":
             # the first element of a sequence of sequences: a 1-D column holding the inner sequence of the first object only
             os_ = self.objseq(scope, 0)
